@@ -93,6 +93,12 @@ namespace c14 {
          }
       }
       KIND("Parameter", auto& m = c.some_mapping(); auto* n = m.param(c.oname(1), c.oty(1)); return c.I(*n, {c.optE("init", n->init)});)
+      // A parameter entered directly into the parameter region of a list (homogeneous_region::scope.push_back, the primitive under
+      // Parameter_list::add_member) has not been told its list: home_region(), lexical_region() and level() read through that link
+      // (a util::ref) and refuse; everything else is as for any parameter.
+      KIND("Parameter#detached", auto& m = c.some_mapping();
+           auto* n = m.inputs.parms.scope.push_back(c.oname(1), c.oty(1), ipr::Decl_position{m.inputs.parms.scope.size()});
+           return c.I(*n, {c.optE("init", n->init)});)
       KIND("Enumerator", auto* e = L.make_enum(*c.work, ipr::Enum::Kind::Legacy); auto* n = e->add_member(c.oname());
            return c.I(*n, {c.optE("init", n->init)});)
       KIND("Base_type", auto* k2 = L.make_class(*c.work); return c.I(*k2->declare_base(c.oty()));)
